@@ -12,12 +12,12 @@ PLAN = dict(
         quick=[det("rel", H, "cs-rel", 16, 120, 5, tso=True, time_cap=30),
                det("dbg", H, "cs-dbg", 16, 60, 5, tso=True, time_cap=20),
                det("sleepy-enum-sbload", H, "cs-rel", 16, 12, 2, tso=True, time_cap=20, enum="sbload", enum_cap=40, args=["--sleepy"]),
-               tsan("C08", 4, 80)],
+               tsan("C08", 8, 300)],
         thorough=[det("rel", H, "cs-rel", 16, 3000, 6, tso=True, time_cap=240),
                   det("dbg", H, "cs-dbg", 16, 1200, 6, tso=True, time_cap=150),
                   det("enum-wake", H, "cs-rel", 16, 150, 2, tso=True, time_cap=90, enum="wake", enum_cap=200),
                   det("enum-sbload", H, "cs-rel", 16, 150, 2, tso=True, time_cap=90, enum="sbload", enum_cap=200),
-               tsan("C08", 16, 600)],
+               tsan("C08", 16, 1500)],
     ),
 )
 TEXT = dict(
